@@ -58,7 +58,26 @@ var groupPoolDigits = []nameEnt{
 	{"Shard1", "SHARD1", "shard1", "shard1"},
 	{"Zone_A", "ZONE_A", "zone_a", "zone_a"},
 	{"S3", "S3", "s3", "s3"},
-	{"V2", "V2", "v2", "v2"},
+	{"Rev2", "REV2", "rev2", "rev2"},
+}
+
+// poolsDisjoint: a struct must never get a leaf and a nested struct of the same name (harness self-check).
+func poolsDisjoint() string {
+	for _, pools := range [][2][]nameEnt{{fieldPool, groupPool}, {deepFieldPool, deepGroupPool}} {
+		seen := map[string]bool{}
+		for _, g := range pools[1] {
+			if seen[foldKey(g.Go)] {
+				return "group name twice: " + g.Go
+			}
+			seen[foldKey(g.Go)] = true
+		}
+		for _, f := range pools[0] {
+			if seen[foldKey(f.Go)] {
+				return "field name equals a group name: " + f.Go
+			}
+		}
+	}
+	return ""
 }
 
 // Words for two-word CamelCase names (First+Second -> FIRST_SECOND), each with its hand-written
